@@ -56,6 +56,7 @@ ROOTS = {
     "fa.fn_x_ih": ("factor_analysis:FactorAnalysisBase._compute_fn_x_ih", {"x_i": "obj:GMMStats", "latent_z_i": "1 [F]", "latent_y_i": "1 [R]"}, True, (None,), "U S [F]"),
     "fa.fn_z_i": ("factor_analysis:FactorAnalysisBase._compute_fn_z_i", {"X_i": ST, "latent_x_i": "1 [R,K]", "latent_y_i": "1 [R]", "n_acc_i": "S [C]", "f_acc_i": "U S [C,D]"}, True, (None,), "U S [F]"),
     "fa.fn_y_i": ("factor_analysis:FactorAnalysisBase._compute_fn_y_i", {"X_i": ST, "latent_x_i": "1 [R,K]", "latent_z_i": "1 [F]", "n_acc_i": "S [C]", "f_acc_i": "U S [C,D]"}, True, (None,), "U S [F]"),
+    "fa.latent_x_i": ("factor_analysis:FactorAnalysisBase._compute_latent_x_per_class", {"X_i": ST, "UProd": "1 [C,R,R]", "UTinvSigma": "U-1 [R,F]", "latent_y_i": "1 [R]", "latent_z_i": "1 [F]"}, False, (None,), "1 [R,K]"),
     "fa.create_UVD": ("factor_analysis:FactorAnalysisBase.create_UVD", {}, False, (None,), None),
     # ---- linear transforms -----------------------------------------------------------------------------------
     "wccn.fit": ("wccn:WCCN.fit", {"X": "U [N,D]", "y": "list:N:*"}, True, (False, True), None),
